@@ -241,7 +241,8 @@ func RefreshRoots() []EngineRoot {
 // Histories are the resume histories explored from every root.
 // ("live|" = the session object is kept; otherwise it is marshalled and read back before the resume;
 // env:far = the resume carries an environment in a timezone where the calendar day differs)
-var Histories = [][]string{{}, {"msg:Dog"}, {"refresh:Dog"}, {"env:far:Dog"}, {"live|env:far:Dog"}}
+// env:mid = a timezone in which the contacts' creation instant is exactly a local midnight
+var Histories = [][]string{{}, {"msg:Dog"}, {"refresh:Dog"}, {"env:far:Dog"}, {"live|env:far:Dog"}, {"env:mid:Dog"}}
 
 // SprintObs is what one engine call exposes to the contact-family oracles.
 type SprintObs struct {
